@@ -1,6 +1,8 @@
 """Shared name families (confirmed by reading the code; one reason each)."""
 from __future__ import annotations
 
+import ast
+
 import re
 
 from .model import ClassInfo, FuncInfo, Program
@@ -101,3 +103,20 @@ def one_shot_reuse_sites(program):
             elif len(uses) > 1:
                 out.append((f, var, desc, uses[1], "is consumed at more than one place: the second consumer finds it empty"))
     return out
+
+
+def api_name(c: ClassInfo, f: FuncInfo) -> str:
+    """The public name under which a private @builder worker is reached: `def where(self, x): ... return self._where(x)`
+    makes `_where` the body of `where`.  Reviewed tables keyed by method name use this name."""
+    if not f.name.startswith("_") or f.name.startswith("__"):
+        return f.name
+    for k in c.mro:
+        for n, g in k.methods.items():
+            if g is f or g.is_builder or n.startswith("_") or not g.params:
+                continue
+            for node in ast.walk(g.node):
+                if (isinstance(node, ast.Return) and isinstance(node.value, ast.Call) and isinstance(node.value.func, ast.Attribute)
+                        and node.value.func.attr == f.name and isinstance(node.value.func.value, ast.Name) and node.value.func.value.id == g.params[0]):
+                    return n
+    return f.name
+
